@@ -106,6 +106,12 @@ class BuiltinMixin:
             return v
         if v.t is TInt:
             return V(TStr, TStr.sort().of_int(v.z))
+        if isinstance(v.t, TOpt) and v.t.inner in (TInt, TStr):
+            if self.spec_mode:
+                return self.bi_str([V(v.t.inner, v.t.val(v.z))], kwargs, node)
+            if self.branch(v.t.is_none(v.z)):
+                return mk_str_const('None')
+            return self.bi_str([V(v.t.inner, v.t.val(v.z))], kwargs, node)
         return self.opaque_str()
 
     def bi_repr(self, args, kwargs, node):
@@ -334,6 +340,27 @@ class BuiltinMixin:
             return self.obj_method_builtin(recv, t.cls, name, args, kwargs)
         raise Unsupported('method %s of %s' % (name, t))
 
+    def opaque_list(self, v):
+        """Name the result of a list mutation by a fresh constant with its definition
+        assumed (length, and elements by a store equation or pointwise): solver triggers
+        then see select terms on the new list instead of a beta-reduced lambda."""
+        from . import lists as L
+        if self.spec_mode:
+            return v
+        t = v.t
+        n = z3.simplify(L.l_len(t, v.z))
+        arr = z3.simplify(L.l_arr(t, v.z))
+        lz = z3.Const(fresh_name('lst'), t.sort())
+        self.assume(L.l_len(t, lz) == n)
+        has_lambda = 'lambda' in arr.sexpr()[:20000]
+        if not has_lambda:
+            self.assume(L.l_arr(t, lz) == arr)
+        else:
+            i = z3.Int('ol_i')
+            sel = L.l_get(t, lz, i)
+            self.assume(z3.ForAll([i], sel == z3.simplify(z3.Select(arr, i)), patterns=[sel]))
+        return V(t, lz, lval=v.lval, py=v.py)
+
     def check_not_iterated(self, recv):
         for it, _seq in self.loop_iter_guard:
             if it.lval is not None and recv.lval is not None and it.lval == recv.lval:
@@ -349,7 +376,7 @@ class BuiltinMixin:
                 t = TList(args[0].t)
                 new = V(t, L.l_from_items(t, [args[0].z]), lval=recv.lval)
             else:
-                new = V(t, L.l_append(t, recv.z, self.key_of(args[0], t.elem).z), lval=recv.lval)
+                new = self.opaque_list(V(t, L.l_append(t, recv.z, self.key_of(args[0], t.elem).z), lval=recv.lval))
             self.store_back(expr, recv, new)
             return NONE
         if name == 'pop':
@@ -368,7 +395,8 @@ class BuiltinMixin:
                 idx = n - 1
             el = V(t.elem, L.l_get(t, recv.z, idx))
             self.assume_wf(el)
-            new = V(t, L.l_remove_at(t, recv.z, idx), lval=recv.lval)
+            new = self.opaque_list(V(t, L.l_remove_at(t, recv.z, idx), lval=recv.lval))
+            self.assume(L.shift_lemma_remove(t, recv.z, new.z, idx))
             self.store_back(expr, recv, new)
             return el
         if name == 'insert':
@@ -382,11 +410,11 @@ class BuiltinMixin:
             elif ci is not None and ci < 0:
                 # insert(-k, x): position max(n-k, 0)
                 pos = z3.If(n + ci < 0, 0, n + ci)
-                new = V(t, L.l_insert_at(t, recv.z, pos, el.z), lval=recv.lval)
+                new = self.opaque_list(V(t, L.l_insert_at(t, recv.z, pos, el.z), lval=recv.lval))
             else:
                 self.nonneg_or_unsupported(idx, 'insert index')
                 pos = z3.If(idx > n, n, idx)
-                new = V(t, L.l_insert_at(t, recv.z, pos, el.z), lval=recv.lval)
+                new = self.opaque_list(V(t, L.l_insert_at(t, recv.z, pos, el.z), lval=recv.lval))
             self.store_back(expr, recv, new)
             return NONE
         if name in ('remove', 'index'):
@@ -404,14 +432,15 @@ class BuiltinMixin:
                                L.forall([j], z3.Implies(z3.And(j >= 0, j < k), sel != el.z), patterns=[sel])))
             if name == 'index':
                 return mk_int(k)
-            new = V(t, L.l_remove_at(t, recv.z, k), lval=recv.lval)
+            new = self.opaque_list(V(t, L.l_remove_at(t, recv.z, k), lval=recv.lval))
+            self.assume(L.shift_lemma_remove(t, recv.z, new.z, k))
             self.store_back(expr, recv, new)
             return NONE
         if name == 'clear':
             self.store_back(expr, recv, V(t, L.l_empty(t), lval=recv.lval))
             return NONE
         if name == 'extend':
-            new = V(t, L.l_concat(t, recv.z, coerce(args[0], t).z), lval=recv.lval)
+            new = self.opaque_list(V(t, L.l_concat(t, recv.z, coerce(args[0], t).z), lval=recv.lval))
             self.store_back(expr, recv, new)
             return NONE
         if name == 'copy':
